@@ -6,11 +6,16 @@ def _wb(name, pkg, **kw):
 
 SPEC = {
     "bins": [
+        # black-box: exported API of math/fp25519, math/fp448 (every CPU configuration + purego in the thorough tier) and internal/conv
         {"name": "c12-math", "pkg": "./zz_verif/c12", "run": "^TestC12", "configs": CPU_OFF, "quick_configs": ["default"],
          "shards": {"quick": 1, "thorough": 2}},
+        # black-box: BLS12-381 Fp, Scalar, Fp2, Fp4, Fp6, Fp12, Fp12Cubic, Cyclo6, URoot against ref/fptower
         {"name": "c12-bls", "pkg": "./zz_verif/c12/bls", "run": "^TestC12", "shards": {"quick": 1, "thorough": 8}},
+        # black-box: Prio3 fp64 / fp128 elements, vectors (NTT), polynomials
         {"name": "c12-prio", "pkg": "./zz_verif/c12/prio", "run": "^TestC12", "shards": {"quick": 1, "thorough": 4}},
+        # black-box: goldilocks.Scalar, group.Scalar of P-256/P-384/P-521/ristretto255
         {"name": "c12-scalar", "pkg": "./zz_verif/c12/scalar", "run": "^TestC12", "shards": {"quick": 1, "thorough": 4}},
+        # white-box overlays, one binary per circl package: generic Go / legacy asm / BMI2(-ADX) asm side by side
         _wb("c12-wb-fp25519", "./math/fp25519"),
         _wb("c12-wb-fp448", "./math/fp448"),
         _wb("c12-wb-p384", "./ecc/p384"),
@@ -20,13 +25,35 @@ SPEC = {
         _wb("c12-wb-kyber", "./pke/kyber/internal/common"),
         _wb("c12-wb-dilithium", "./sign/internal/dilithium"),
     ],
-    "rule": "TODO",
-    "assumptions": COMMON_ASSUME,
+    "rule": "case = (field type, operation, operand tuple, alias pattern, back-end); operands are drawn per 64-bit limb from "
+            "{0,1,2,c-1,c,c+1,2^32-1,2^32,2^63,2^64-c-1..2^64-1} or uniform, from value-level edges (k*p+d, p-1-d, 2p+-d, 2^bits-1-d, p/2) "
+            "and uniform; for Montgomery-form types the edge structure is placed either in the value or in the internal representation a*R. "
+            "non-trivial = the tuple contains an edge-class or unreduced operand, or the call is aliased (z=x, z=y, x=y, z=x=y); "
+            "distinct by FNV-64 of (type, operation, back-end, alias, operands). Exhaustive sub-domains (Kyber 16-bit and Dilithium 32-bit "
+            "reductions) count one evaluation per input and one non-trivial object per shard. An aliased call is always preceded by the "
+            "same call on distinct objects, so a failure keyed '<type>/<op>/aliased' is caused by the aliasing itself.",
+    "assumptions": COMMON_ASSUME + [
+        "reference for the BLS12-381 tower: ref/fptower (polynomials in w over Fp2 with w^6 = 1+u on math/big, inverse by Gaussian elimination); "
+        "its constants are derived from the BLS parameter x and compared with the published p and r; structural Frobenius is self-tested against exponentiation",
+        "orders of P-256/P-384/P-521 are taken from crypto/elliptic; all other moduli are written out from their defining formulas and tested for primality",
+        "NTT convention pinned: out[k] = sum_j in[j]*w^(jk) with w = SetRootOfUnityTwoN(log2 N), InvNTT uses 1/w and no 1/N factor (checked to be primitive)",
+        "arm64 back-ends cannot be executed on this machine; white-box overlays for p384/fourq/csidh/fp25519/fp448 are built for amd64 && !purego only",
+    ],
     "budget": {"quick": 900, "thorough": 3600},
 }
 
 MANIFEST = {
-    "technique": "TODO",
-    "text": "TODO",
-    "note": "TODO",
+    "technique": "property-based testing (rapid) with limb-structured boundary-biased operand generation and aliasing patterns, differential against math/big "
+                 "(and a polynomial-arithmetic reference tower for BLS12-381); in-process back-end switching (generic Go / legacy asm / BMI2-ADX asm) in white-box "
+                 "overlays plus process-level CPU-feature configurations and the purego build; exhaustive enumeration of the 16-bit Kyber and 32-bit Dilithium reductions",
+    "text": "For every field type (fp25519, fp448, P-384 fp384, FourQ Fp/Fq, CSIDH fp, BLS12-381 Fp/Fp2/Fp4/Fp6/Fp12/Fp12Cubic/Cyclo6/URoot/Scalar, Prio3 fp64/fp128 "
+            "with vectors, NTT and polynomials, Ed25519 scalar reduction, goldilocks.Scalar, group.Scalar of four groups, internal/conv) an adapter maps to and from "
+            "math/big and each operation is evaluated on generated operand tuples: the canonical residue of the result must equal the integer result, types with a "
+            "reduced operand domain must return reduced values, canonicalising operations must behave as on the unique representative, selections are exact for "
+            "selector 0/1, square roots exist exactly when Euler's criterion says so. The search is the right level: the domains have 2^256..2^1024 elements and the "
+            "faults of interest (carry propagation) occur with probability about 2^-64 under uniform sampling, which is why operands are built limb by limb from edge values; "
+            "the two small domains are enumerated completely.",
+    "note": "trusts math/big and crypto/elliptic parameters; 1/0, InvSqrt with y=0 and other undocumented corner results are counted but not asserted; "
+            "FourQ fqSqrt is accepted up to conjugation (its only caller compensates); fp384/csidh/ff results are required to be fully reduced because the packages compare them byte-wise; "
+            "arm64 assembly is not executed; never establishes absence",
 }
